@@ -84,6 +84,7 @@ impl SubRule {
         // RuleType::Metathesis    => {/* skip calc output */},
         // RuleType::Deletion      => {/* skip calc output */},
         // RuleType::Insertion     => {/* skip match input */},
+        #[cfg(feature = "verif")] crate::verif::enter_subrule(self.rule_type as u32);
 
         if self.rule_type == RuleType::Insertion {
             return self.transform(&word, vec![], &mut None)
